@@ -24,10 +24,14 @@ CONSTANT SharedField   \* "none" (the code) | "params" | "consumer" | "alt" | "b
 (* opA: POST /a/{id}  security [{key:[ska]}]            body, json|text     *)
 (* opB: POST /b/{id}  no security                       body, json|text     *)
 (* opC: GET  /c/{id}  security [{key:[skc]},{tok:[stc1,stc2]}]  no body     *)
-Ops == {"opA", "opB", "opC"}
-Pattern(op) == CASE op = "opA" -> "/a/{id}" [] op = "opB" -> "/b/{id}" [] op = "opC" -> "/c/{id}"
-HasBody(op) == op \in {"opA", "opB"}
+(* opD: POST /d       security [{key:[skd]}]            body, json|text     *)
+(*      (a parameter-free, static route)                                    *)
+Ops == {"opA", "opB", "opC", "opD"}
+Pattern(op) == CASE op = "opA" -> "/a/{id}" [] op = "opB" -> "/b/{id}" [] op = "opC" -> "/c/{id}" [] op = "opD" -> "/d"
+HasBody(op) == op \in {"opA", "opB", "opD"}
+HasId(op) == op # "opD"
 Alts(op) == CASE op = "opA" -> << [scheme |-> "key", scopes |-> <<"ska">>] >>
+              [] op = "opD" -> << [scheme |-> "key", scopes |-> <<"skd">>] >>
               [] op = "opB" -> << >>
               [] op = "opC" -> << [scheme |-> "key", scopes |-> <<"skc">>],
                                   [scheme |-> "tok", scopes |-> <<"stc1", "stc2">>] >>
@@ -51,6 +55,8 @@ Stages(in) ==
   \o <<"bound", "handle", "format", "respond", "produce", "done">>
 
 NoneStr == "-"
+IdOf(in) == IF HasId(in.op) THEN in.id ELSE NoneStr      \* the path parameter, if the route has one
+DataOf(in) == IF HasId(in.op) THEN in.id ELSE in.body    \* what the test handler returns
 
 (* ---- state ------------------------------------------------------------- *)
 (* s = [in, pc, mr, cx, sh]                                                 *)
@@ -84,8 +90,8 @@ StepState(s, r) ==
       k  == Stage(s, r)
       adv == [s EXCEPT !.pc[r] = @ + 1]
   IN CASE k = "route" ->
-            IF SharedField = "params" THEN [adv EXCEPT !.sh.params = in.id]
-            ELSE [adv EXCEPT !.mr[r].params = in.id]
+            IF SharedField = "params" THEN [adv EXCEPT !.sh.params = IdOf(in)]
+            ELSE [adv EXCEPT !.mr[r].params = IdOf(in)]
        [] k = "alt" ->
             IF SharedField = "alt" THEN [adv EXCEPT !.sh.alt = AdmittingAlt(in.op, in.cs)]
             ELSE [adv EXCEPT !.mr[r].alt = AdmittingAlt(in.op, in.cs)]
@@ -104,7 +110,7 @@ StepState(s, r) ==
 StepObs(s, r) ==
   LET in == s.in[r]
       k  == Stage(s, r)
-  IN CASE k = "route"     -> <<Pattern(in.op), in.id>>   \* the fresh MatchedRoute copy carries this request's params
+  IN CASE k = "route"     -> <<Pattern(in.op), IdOf(in)>>   \* the fresh MatchedRoute copy carries this request's params
        [] k = "authcall"  -> LET sch == Alts(in.op)[AuthCallIndex(s, r)].scheme
                              IN <<sch, IF in.cs = sch THEN in.cu ELSE NoneStr>>
        [] k = "alt"       -> <<in.cs>>
@@ -117,8 +123,8 @@ StepObs(s, r) ==
        [] k = "handle"    -> <<RdBid(s, r), RdBbody(s, r)>>
                              \o (IF Secured(in.op) THEN <<in.cs, in.cu>> \o s.cx[r].scopes ELSE << >>)
        [] k = "respond"   -> <<in.accept>>
-       [] k = "produce"   -> <<in.accept, in.id>>
-       [] k = "done"      -> <<"200", in.accept, in.id>>
+       [] k = "produce"   -> <<in.accept, DataOf(in)>>
+       [] k = "done"      -> <<"200", in.accept, DataOf(in)>>
 
 (* The observations of a request that runs alone.                           *)
 RECURSIVE SoloFrom(_, _)
